@@ -158,7 +158,7 @@ var profiles = map[string]*profile{
 		weights: map[string]int{
 			"define": 4, "bind": 9, "update": 4, "setwd": 2, "disable": 3, "enable": 3, "refund": 4,
 			"call": 10, "respond": 14, "pause": 3, "start": 3, "kill": 2, "updatectx": 3, "withdraw": 5,
-			"modcreate": 4, "modpause": 1, "modstart": 2, "modkill": 1, "modupdate": 2,
+			"modcreate": 5, "modpause": 2, "modstart": 2, "modkill": 1, "modupdate": 2,
 			"fund": 1, "xfer": 1, "endblock": 27,
 		},
 		advPct: 20, repPct: 55, promoPct: 30, modulesPct: 40, modsvcPct: 15, prices: pricesNormal, dtTable: dtNormal,
@@ -857,7 +857,7 @@ func (g *gen) refundableAt(b types.ServiceBinding) time.Time {
 }
 
 func (g *gen) opRefund(adv bool) (*draft, bool) {
-	off := g.v.filterBindings(func(b types.ServiceBinding) bool { return !b.Available })
+	off := g.v.filterBindings(func(b types.ServiceBinding) bool { return !b.Available && !b.Deposit.IsZero() })
 	ripe := g.v.filterBindings(func(b types.ServiceBinding) bool {
 		return !b.Available && !b.Deposit.IsZero() && !g.v.now.Before(g.refundableAt(b))
 	})
@@ -989,11 +989,8 @@ func (g *gen) callFields(d *draft, adv bool) bool {
 		d.set("input", "bad")
 	case 8: // consumer without funds
 		d.set("cons", hx(strangerAddr))
-	case 9: // same tx hash and index as an existing context
-		if len(g.v.ctxs) > 0 {
-			id := g.v.ctxs[g.r.Intn(len(g.v.ctxs))].id
-			d.set("tx", hx(id[:32])).set("idx", itoa(int64(binary.BigEndian.Uint64(id[32:]))))
-		}
+	case 9: // (context ids are never reused: E7 of DESIGN.md; a repeated (tx hash, index) is outside the domain)
+		d.set("input", "bad")
 	case 10: // only unbound providers
 		d.set("provs", hx(repeatByte(0x66, 20)))
 	case 11: // cap below every price
@@ -1037,7 +1034,7 @@ func (g *gen) opModCreate(adv bool) (*draft, bool) {
 		case 2:
 			d.set("mod", "nomod") // callbacks not registered
 		case 3:
-			d.set("mod", "-") // a plain context through the keeper API
+			d.set("thr", "0") // (a module always passes its own name; mod=- is outside the domain)
 		}
 	}
 	return d, true
